@@ -175,9 +175,9 @@ Qed.
 Lemma elem_wreg_okb : forall e, elem_okb e = true -> wreg_okb e = true.
 Proof. intros e H. unfold elem_okb in H. apply andb_true_iff in H. tauto. Qed.
 
-Lemma wop_plainok : forall o, wop_okb false o = true -> plainok (toks_wop o) = true.
+Lemma wop_plainok : forall fx o, wop_okb fx o = true -> plainok (toks_wop o) = true.
 Proof.
-  intros o Hok. destruct o as [r|els i|a b i|h n|h f|h w|w|b t c]; unfold toks_wop.
+  intros fx o Hok. destruct o as [r|els i|a b i|h n|h f|h w|w|b t c]; unfold toks_wop.
   - destruct r as [r|r i|r m|w|w]; cbn [wop_okb wregop_okb] in Hok; simpl.
     + rewrite (reg_word_ok r Hok). reflexivity.
     + apply andb_true_iff in Hok. destruct Hok as [Hr Hok]. apply andb_true_iff in Hok. destruct Hok as [_ Hi].
@@ -229,7 +229,7 @@ Proof.
           repeat (apply orb_true_iff in Hp; destruct Hp as [Hp|Hp]; [apply Ascii.eqb_eq in Hp; subst p; reflexivity|]). discriminate. }
         pose proof (reg_word_ok _ Hr) as W. unfold reg_word in W. cbn [w_num w_pre w_arr] in W. rewrite app_nil_r_s in W.
         simpl. rewrite W. simpl. destruct e as [[op am]|]; [|reflexivity].
-        unfold wext_okb in He. apply andb_true_iff in He. destruct He as [Hop Ham]. simpl. rewrite (ext_word_ok op Hop). simpl.
+        unfold wext_okb in He. apply andb_true_iff in He. destruct He as [Hop Ham]. simpl. rewrite (ext_word_ok fx op Hop). simpl.
         destruct am as [[h k]|]; [|reflexivity]. apply andb_true_iff in Ham. destruct Ham as [Hk _].
         apply num_toks_plainok. exact Hk. }
     assert (Pc : plainok (match c with MCNone => [] | MCPre => [TP "!"] | MCPost h n => TP "," :: num_toks h n end) = true).
@@ -239,12 +239,12 @@ Proof.
     rewrite !plainok_app, Pt, Pc. simpl. rewrite Wb. reflexivity.
 Qed.
 
-Lemma ops_plainok : forall ops, forallb (wop_okb false) ops = true -> plainok (ops_toks ops) = true.
+Lemma ops_plainok : forall fx ops, forallb (wop_okb fx) ops = true -> plainok (ops_toks ops) = true.
 Proof.
-  induction ops as [|o r IH]; intros H; [reflexivity|]. simpl in H. apply andb_true_iff in H. destruct H as [Ho Hr].
+  intros fx. induction ops as [|o r IH]; intros H; [reflexivity|]. simpl in H. apply andb_true_iff in H. destruct H as [Ho Hr].
   destruct r as [|o2 r'].
-  - simpl. apply wop_plainok. exact Ho.
-  - rewrite ops_toks_cons2, plainok_app, (wop_plainok o Ho). simpl. apply IH. exact Hr.
+  - simpl. apply (wop_plainok fx). exact Ho.
+  - rewrite ops_toks_cons2, plainok_app, (wop_plainok fx o Ho). simpl. apply IH. exact Hr.
 Qed.
 
 Lemma toks_okb_plain_comment : forall a c, plainok a = true -> comment_okb c = true -> toks_okb (a ++ comment_toks c)%list = true.
@@ -258,15 +258,15 @@ Qed.
 Lemma dir_param_nonempty : forall p, dir_param_ok p = true -> nonempty p = true.
 Proof. intros [|c r] H; [discriminate|reflexivity]. Qed.
 
-Theorem toks_line_okb : forall l, wline_okb false l = true -> toks_okb (toks_line l) = true.
+Theorem toks_line_okb : forall fx l, wline_okb fx l = true -> toks_okb (toks_line l) = true.
 Proof.
-  intros [mn ops c|n c|n ps c|raw] H; unfold wline_okb in H; unfold toks_line.
+  intros fx [mn ops c|n c|n ps c|raw] H; unfold wline_okb in H; unfold toks_line.
   - apply andb_true_iff in H. destruct H as [Hmn H]. apply andb_true_iff in H. destruct H as [_ H].
     apply andb_true_iff in H. destruct H as [_ H]. apply andb_true_iff in H. destruct H as [Hok H].
     apply andb_true_iff in H. destruct H as [_ H]. apply andb_true_iff in H. destruct H as [_ H].
     apply andb_true_iff in H. destruct H as [Hc _].
     change (TW mn :: ops_toks ops ++ comment_toks c)%list with ((TW mn :: ops_toks ops) ++ comment_toks c)%list.
-    apply toks_okb_plain_comment; [|exact Hc]. simpl. rewrite (ops_plainok ops Hok), andb_true_r.
+    apply toks_okb_plain_comment; [|exact Hc]. simpl. rewrite (ops_plainok fx ops Hok), andb_true_r.
     unfold mnemonic_ok in Hmn. apply andb_true_iff in Hmn. destruct Hmn as [Hne Hs].
     apply plain_word_ok; [exact Hne|]. exact (sall_impl _ _ mn mnch_wordch Hs).
   - apply andb_true_iff in H. destruct H as [Hn Hc].
@@ -296,15 +296,15 @@ Proof.
 Qed.
 
 (* on a well-formed line the layout hypothesis is spacing alone *)
-Theorem layout_is_spacing : forall l lay trail, wline_okb false l = true ->
+Theorem layout_is_spacing : forall fx l lay trail, wline_okb fx l = true ->
   layout_okb lay trail l = spacing_okb lay trail l.
 Proof.
-  intros l lay trail H. unfold layout_okb, spacing_okb. rewrite lay_okb_split, (toks_line_okb l H), andb_true_r. reflexivity.
+  intros fx l lay trail H. unfold layout_okb, spacing_okb. rewrite lay_okb_split, (toks_line_okb fx l H), andb_true_r. reflexivity.
 Qed.
 
-Theorem parse_render_spacing : forall l lay trail,
-  wline_okb false l = true -> spacing_okb lay trail l = true -> cond_tight lay trail l = true ->
-  parse_line (render lay trail l) = Parsed (denote l).
+Theorem parse_render_spacing : forall fx l lay trail,
+  wline_okb fx l = true -> spacing_okb lay trail l = true -> cond_tight fx lay trail l = true ->
+  parse_line fx (render lay trail l) = Parsed (denote l).
 Proof.
-  intros l lay trail Hl Hs Ht. apply parse_render_partial; auto. rewrite (layout_is_spacing l lay trail Hl). exact Hs.
+  intros fx l lay trail Hl Hs Ht. apply parse_render_fx; auto. rewrite (layout_is_spacing fx l lay trail Hl). exact Hs.
 Qed.
